@@ -241,10 +241,11 @@ type scenario struct {
 	cause       bool        // cancel with a cause
 	timeoutMode bool        // silent upstreams return when their own context expires
 	q           *dns.Msg
-	real        bool      // NewForward over loopback UDP instead of in-memory upstreams
-	blank       bool      // QuickConfigureExec(" ") : no upstream at all
-	pad         int       // >0: pad the query (EDNS0 padding in qCtx.QOpt()) to exactly this many bytes on the wire
-	catSeq      []outcome // catalogue: the j-th existing call (by upstream, occurrence) gets catSeq[j]
+	real        bool          // NewForward over loopback UDP instead of in-memory upstreams
+	blank       bool          // QuickConfigureExec(" ") : no upstream at all
+	callerDL    time.Duration // != 0: the caller's context has a deadline this far after the start of the call
+	pad         int           // >0: pad the query (EDNS0 padding in qCtx.QOpt()) to exactly this many bytes on the wire
+	catSeq      []outcome     // catalogue: the j-th existing call (by upstream, occurrence) gets catSeq[j]
 }
 
 func (sc *scenario) effLen() int {
@@ -375,9 +376,13 @@ func padQuery(qCtx *query_context.Context, target int, seed uint64) {
 
 func emitRun(sc *scenario, qlen int, calls []int, payOK bool, dl string, evs []string, obs string, stuck int, extra map[string]any) result {
 	sort.Ints(calls)
-	coq := hx.App("CRun", hx.Bool(sc.real), hx.Ni(qlen), hx.Nat(sc.n), sc.selCoq(), hx.Z(int64(sc.conc)), hx.Bool(sc.ordered),
+	cdl := "None"
+	if sc.callerDL != 0 {
+		cdl = hx.Some(hx.Z(int64(sc.callerDL / time.Second)))
+	}
+	coq := hx.App("CRun", hx.Bool(sc.real), hx.Ni(qlen), cdl, hx.Nat(sc.n), sc.selCoq(), hx.Z(int64(sc.conc)), hx.Bool(sc.ordered),
 		hx.NatList(calls), hx.Bool(payOK), dl, hx.List(evs), obs, hx.Nat(stuck))
-	desc := map[string]any{"qlen": qlen, "n": sc.n, "conc": sc.conc, "ordered": sc.ordered, "sel": sc.selCoq(), "obs": obs, "real": sc.real}
+	desc := map[string]any{"qlen": qlen, "caller_deadline": sc.callerDL.String(), "n": sc.n, "conc": sc.conc, "ordered": sc.ordered, "sel": sc.selCoq(), "obs": obs, "real": sc.real}
 	for k, v := range extra {
 		desc[k] = v
 	}
@@ -416,7 +421,13 @@ func run(sc *scenario) result {
 	if err != nil {
 		panic(err)
 	}
-	ctx, cancelFn := context.WithCancelCause(context.Background())
+	parent := context.Background()
+	if sc.callerDL != 0 {
+		var pc context.CancelFunc
+		parent, pc = context.WithDeadline(parent, time.Now().Add(sc.callerDL))
+		defer pc()
+	}
+	ctx, cancelFn := context.WithCancelCause(parent)
 	defer cancelFn(nil)
 	var evs []string
 	cancelled := false
@@ -731,7 +742,13 @@ func runLate(sc *scenario, imm bool) result {
 		others = append(others, o)
 	}
 	held := make([]*[]byte, 0, len(others))
-	ctx, cancelFn := context.WithCancelCause(context.Background())
+	parent := context.Background()
+	if sc.callerDL != 0 {
+		var pc context.CancelFunc
+		parent, pc = context.WithDeadline(parent, time.Now().Add(sc.callerDL))
+		defer pc()
+	}
+	ctx, cancelFn := context.WithCancelCause(parent)
 	defer cancelFn(nil)
 	var evs []string
 	if !imm {
@@ -826,6 +843,9 @@ func genLate(r *hx.RNG, id string, conc, n int) *scenario {
 	sc.q = genQuery(r)
 	if r.Chance(1, 6) {
 		sc.pad = hx.Pick(r, []int{8190, 8191, 9000, 20000})
+	}
+	if r.Chance(1, 3) {
+		sc.callerDL = hx.Pick(r, []time.Duration{6 * time.Second, 30 * time.Second, time.Hour})
 	}
 	return sc
 }
@@ -1099,6 +1119,14 @@ func genScenario(r *hx.RNG, id string) *scenario {
 			sc.pad = 65535
 		}
 	}
+	// the caller's context: mostly cancel-only, else with a deadline at, just beyond and far beyond the upstream
+	// timeout; a 1 s deadline only where the script ends the context itself before the call
+	if r.Chance(1, 3) {
+		sc.callerDL = hx.Pick(r, []time.Duration{5 * time.Second, 6 * time.Second, 30 * time.Second, 30 * time.Second, time.Hour})
+		if sc.cancelAt == 0 && sc.preCancel && r.Bool() {
+			sc.callerDL = time.Second
+		}
+	}
 	return sc
 }
 
@@ -1149,6 +1177,7 @@ type cat struct {
 	unord    bool
 	timeout  bool
 	pad      int
+	dl       time.Duration
 }
 
 func (c cat) scenario(seed uint64) *scenario {
@@ -1158,6 +1187,7 @@ func (c cat) scenario(seed uint64) *scenario {
 		selKind: c.selKind, sub: c.sub, blank: c.blank, timeoutMode: c.timeout, cause: r.Bool()}
 	sc.q = genQuery(r)
 	sc.pad = c.pad
+	sc.callerDL = c.dl
 	sc.maxRel = len(c.seq)
 	sc.catSeq = c.seq
 	if sc.catSeq == nil {
@@ -1235,8 +1265,20 @@ func catalogue(thorough bool) []cat {
 		add(cat{name: fmt.Sprintf("big:%d:3", size), n: 3, conc: 3, seq: S(oServ, oFail, oGood), cancelAt: -1, pad: size})
 		add(cat{name: fmt.Sprintf("big:%d:q", size), n: 3, conc: 2, selKind: 2, sub: []int{2, 0}, seq: S(oFail, oRefused), cancelAt: -1, pad: size})
 	}
-	// the upstream's own 5 s deadline ends a silent exchange
-	add(cat{name: "timeout:2", n: 2, conc: 2, seq: S(oSilent, oSilent), cancelAt: -1, timeout: true})
+	// the caller's context has a deadline: at, just beyond and far beyond the 5 s upstream timeout; next to a
+	// silent upstream (whose helper must still be bounded by the upstream timeout, not by the caller)
+	for _, d := range []time.Duration{5 * time.Second, 6 * time.Second, 30 * time.Second, time.Hour} {
+		sec := int(d / time.Second)
+		add(cat{name: fmt.Sprintf("deadline:%d:1", sec), n: 2, conc: 1, seq: S(oGood), cancelAt: -1, dl: d})
+		add(cat{name: fmt.Sprintf("deadline:%d:3", sec), n: 3, conc: 3, seq: S(oServ, oSilent, oGood), cancelAt: -1, dl: d})
+		add(cat{name: fmt.Sprintf("deadline:%d:silent", sec), n: 3, conc: 3, seq: S(oSilent, oSilent, oSilent), cancelAt: -1, dl: d})
+		add(cat{name: fmt.Sprintf("deadline:%d:cancel", sec), n: 3, conc: 2, seq: S(oServ, oSilent), cancelAt: 1, dl: d})
+		add(cat{name: fmt.Sprintf("deadline:%d:race", sec), n: 3, conc: 3, seq: S(oServ, oGood, oFail), cancelAt: -1, unord: true, dl: d})
+	}
+	add(cat{name: "deadline:1:pre", n: 3, conc: 3, seq: S(oGood, oGood, oGood), cancelAt: 0, pre: true, dl: time.Second})
+	add(cat{name: "deadline:past:pre", n: 3, conc: 2, seq: S(oGood, oGood), cancelAt: 0, pre: true, dl: -time.Second})
+	// the upstream's own 5 s deadline ends a silent exchange, although the caller would wait for 30 s
+	add(cat{name: "timeout:2", n: 2, conc: 2, seq: S(oSilent, oSilent), cancelAt: -1, timeout: true, dl: 30 * time.Second})
 	if thorough {
 		add(cat{name: "timeout:3", n: 3, conc: 3, seq: S(oServ, oSilent, oSilent), cancelAt: -1, timeout: true})
 		add(cat{name: "timeout:1", n: 1, conc: 0, seq: S(oSilent), cancelAt: -1, timeout: true})
